@@ -210,15 +210,75 @@ def run_case(case):
     return {"viol": viol, "nontrivial": nfiles > 5, "outcome": f"ok/{nfiles}files" if not viol else viol[0]["sig"], "files": nfiles}
 
 
+SEQ_ALPHABET = ["bm_V", "B_V", {"keyword": "bm_V", "unit": "kbar", "fname": "bm_V_kbar.txt"}, {"keyword": "bulk_modulus_voigt", "fname": "copy_of_bm_V.txt"},
+                "cij", "cij_s", "cij_t", {"keyword": "cij", "unit": "kbar"}, "vs", {"keyword": "v_s", "unit": "m/s", "fname": "vs_m_s.txt"}]
+
+
+def run_sequence(case):
+    """mode B: several requests through ONE writer (write_variables): every request must leave its file, with the content
+    of the last request that named that file"""
+    from cij.core.calculator import Calculator
+    grid = GRIDS["g0"]
+    spec = dict(nv=6, nq=2, na=1, lattice="power", system="orthorhombic", compset="minimal", static="generic",
+                weights="increasing", qha=dict(grid))
+    base_name = case["base"]
+    viol = []
+    with K.scratch() as d:
+        synth.write(d, spec)
+        try:
+            c = Calculator(os.path.join(d, "settings.yaml"))
+        except Exception as ex:
+            return {"viol": [V(f"c15:calculator-raises:{type(ex).__name__}", K.fmt_exc(ex))], "outcome": "raises"}
+        base = c.pressure_base if base_name == "tp" else c.volume_base
+        keys = list(c.modulus_adiabatic.keys())
+        out = os.path.join(d, "out")
+        os.makedirs(out)
+        expected = {}      # file name -> (array, factor)
+        for req in case["seq"]:
+            cfg = {"keyword": req} if isinstance(req, str) else dict(req)
+            pat, unit, what, canon = DOC[cfg["keyword"]]
+            factor = FACTOR[unit]
+            if "unit" in cfg:
+                factor = {"kbar": 10.0 * GPA_PER_AU, "m/s": 1000.0}[cfg["unit"]]
+            if what in ("adiabatic", "isothermal"):
+                src = base.modulus_adiabatic if what == "adiabatic" else base.modulus_isothermal
+                for k in keys:
+                    expected[pat.format(ij="%d%d" % tuple(k.voigt), base=base_name)] = (numpy.asarray(src[k], float), factor)
+            else:
+                expected[cfg.get("fname") or pat.format(base=base_name)] = (numpy.asarray(getattr(base, what), float), factor)
+        with K.chdir(out):
+            try:
+                base.write_variables(list(case["seq"]))
+            except Exception as ex:
+                return {"viol": [V(f"c15:sequence-raises:{type(ex).__name__}", f"{case['seq']}: {K.fmt_exc(ex)}")], "outcome": "raises"}
+            got = set(os.listdir("."))
+            if got != set(expected):
+                viol.append(V("c15:sequence:files", f"requests {case['seq']} on {base_name}: missing {sorted(set(expected) - got)[:4]}, unexpected {sorted(got - set(expected))[:4]}"))
+            for fn, (arr, factor) in expected.items():
+                if fn not in got:
+                    continue
+                corner, rows, cols, vals, _ = parse_table(fn)
+                ref = arr[:grid["NT"], :] * factor
+                if vals.shape != ref.shape or not numpy.all(numpy.abs(vals - ref) <= 1e-7 * numpy.abs(ref)):
+                    viol.append(V("c15:sequence:content", f"requests {case['seq']} on {base_name}: {fn} does not hold the values of the last request that named it"))
+    return {"viol": viol, "nontrivial": len(case["seq"]) > 1, "outcome": f"seq-ok/{len(expected)}files" if not viol else viol[0]["sig"], "files": len(expected)}
+
+
 def explore(ctx):
     ctx.rule = ("complete product: 4 grids (incl. T_MIN>0, fractional DT, P_MIN<0, DELTA_P_SAMPLE != DELTA_P) x 3 component sets (9/13/21) x "
                 "2 bases; for each: every keyword and alias of the writer rules (read at run time, expectations transcribed from the "
                 "documented table) written through ResultsWriter into its own directory and re-read by an independent parser; unit and "
-                "file-name overrides; write_output() with a mixed output section; non-trivial = more than 5 files checked")
+                "file-name overrides; write_output() with a mixed output section; all ordered sequences of <=2 (<=3 thorough) requests from a "
+                "10-letter alphabet (keywords, aliases, unit/file-name overrides of 3 rules) through ONE writer: every request leaves its file "
+                "with the content of the last request naming it; non-trivial = more than 5 files checked / sequence longer than 1")
     ctx.assumptions = ["expected names/units transcribed from docs/usage/output.rst as rendered from the pinned writer_rules.yml", "CODATA unit factors from scipy.constants",
                        "file-name override asserted only for single-table keywords (for c_ij keywords one name cannot serve several components)"]
     cases = [{"grid": g, "ncomp": n, "base": b} for g in GRIDS for n in SYSTEMS for b in ("tp", "tv")]
     res = ctx.run(MOD, "run_case", cases, part="writer", chunksize=1)
+    import itertools
+    seqs = [list(sq) for L in ((1, 2) if ctx.quick else (1, 2, 3)) for sq in itertools.product(SEQ_ALPHABET, repeat=L)]
+    res += ctx.run(MOD, "run_sequence", [{"seq": sq, "base": b} for sq in seqs for b in (("tp",) if ctx.quick else ("tp", "tv"))],
+                   part="request-sequences", chunksize=4, transitions=sum(len(sq) for sq in seqs))
     ctx.notes["files_checked"] = sum(r.get("files", 0) for r in res)
     ctx.notes["keywords"] = sorted(DOC)
 
